@@ -12,6 +12,7 @@ package lib
 //   S3 k.. i.. ..     gendemo Msg3 (fields whee, woot, waga in that order, ints)
 //   Q<n> k<hex> S3 .. gendemo Map__String__Msg3
 //   I<hex> Z<hex>     gendemo Int / String
+//   T<hex(engine:type)> <val..>  a node of a typed engine (node_typed.go) for the schema type, holding the value
 import (
 	"errors"
 	"fmt"
@@ -28,7 +29,9 @@ import (
 
 type NSpec struct {
 	Tag byte
-	V   *Val // scalars
+	Eng string // T: typed engine and schema type text
+	Ty  string
+	V   *Val // scalars; T: the value
 	L   []*NSpec
 	K   []string // keys for m, M, S, Q
 }
@@ -46,6 +49,8 @@ func (s *NSpec) text(sb *strings.Builder) {
 		sb.WriteByte(' ')
 	}
 	switch s.Tag {
+	case 'T':
+		sb.WriteString("T" + Hex(s.Eng+":"+s.Ty) + " " + s.V.Text())
 	case 'u':
 		sb.WriteString("u" + s.V.I.Text(16))
 	case 'I':
@@ -94,6 +99,14 @@ func parseNSpec(toks []string) (*NSpec, []string, error) {
 	t, rest := toks[0], toks[1:]
 	body := t[1:]
 	switch t[0] {
+	case 'T':
+		et := UnHex(body)
+		i := strings.IndexByte(et, ':')
+		v, rest2, err := parseVal(rest)
+		if err != nil {
+			return nil, nil, err
+		}
+		return &NSpec{Tag: 'T', Eng: et[:i], Ty: et[i+1:], V: v}, rest2, nil
 	case 'u', 'I':
 		i, ok := new(big.Int).SetString(body, 16)
 		if !ok {
@@ -149,6 +162,19 @@ func parseNSpec(toks []string) (*NSpec, []string, error) {
 // AssignNode(child) so that children are kept as they are wherever the holder allows it.
 func (s *NSpec) Build() (datamodel.Node, error) {
 	switch s.Tag {
+	case 'T':
+		t, err := SchParse(s.Ty)
+		if err != nil {
+			return nil, err
+		}
+		nb, err := TypedBuilder(s.Eng, t)
+		if err != nil || nb == nil {
+			return nil, fmt.Errorf("no %s builder for %s: %v", s.Eng, s.Ty, err)
+		}
+		if err := Assemble(nb, s.V); err != nil {
+			return nil, err
+		}
+		return nb.Build(), nil
 	case 'u':
 		return basicnode.NewUint(s.V.I.Uint64()), nil
 	case 'I':
